@@ -78,7 +78,8 @@ static bool repair(Program &p) {
             if (!op.has("tweak")) op.setnull("tweak");
             fit("tweak", len < (unsigned)bs ? len : (unsigned)bs);
             bool lenok = mant ? len == 8 : (len >= 1 && len <= (unsigned)bs);
-            if (!nullobj && s.live && lenok && !(s.keyed && s.tweaked) && !mant) continue;   // tweak on a plain / missing key: undefined by the docs
+            // tweak on a plain / missing key: result undefined by the docs (kept only for the purely differential C06)
+            if (g_prop != 6 && !nullobj && s.live && lenok && !(s.keyed && s.tweaked) && !mant) continue;
         } else if (fn == "set_counter") {
             if (!kind_is_ctr(kind)) continue;
             unsigned len = (unsigned)op.geti("len");
